@@ -304,7 +304,8 @@ def rS(S):
     if t == "blk":
         s = "do " + rB(S[1])
         for V, h in S[2]:
-            s += " catch " + ("all" if V is None else lit_src(V["v"]))
+            s += " catch " + ("all" if V is None else
+                              rE(V["e"]) if "e" in V else lit_src(V["v"]))
             s += " do " + rB(h) + " end;"
         if S[3] is not None:
             s += " finally " + rB(S[3])
@@ -635,9 +636,16 @@ class Machine:
                 result = self.run_block(body, scope)
             except Err as e:
                 for V, handler in catches:
-                    if V is None or veq(e.value, lit_value(V["v"])):
+                    # the catch value is evaluated when an error arrives,
+                    # every time (it may be an expression over variables)
+                    cv = None if V is None else (
+                        self.ev(V["e"], scope) if "e" in V
+                        else lit_value(V["v"]))
+                    if V is not None and "e" in V:
+                        self.stat("catch_value_expression")
+                    if V is None or veq(e.value, cv):
                         if V is not None and kind_of(e.value) == "num" and \
-                                type(e.value) is not type(lit_value(V["v"])):
+                                type(e.value) is not type(cv):
                             self.stat("handler_matched_numeric")
                         # handler result becomes the value of the block
                         self.ctx.append("handler")
@@ -658,7 +666,13 @@ class Machine:
                 # inside it replaces whatever was in flight
                 self.ctx.append("finally")
                 try:
-                    self.run_block(fin, scope)
+                    # every statement of the finally part runs; a return /
+                    # break / continue inside it neither ends the finally
+                    # part nor replaces what is in flight
+                    for st in fin:
+                        r2 = self.stmt(st, scope)
+                        if isinstance(r2, Ctl):
+                            self.stat("control_statement_in_finally")
                 except Err:
                     self.stat("finally_raises")
                     raise
